@@ -74,6 +74,12 @@ theorem c17_splitters_total (t : Text) (sm : SMap) (o : Opts) (ht : t.length + 2
 theorem c17_raw_total (t : Text) (o : Opts) (ht : t.length + 1 < 2 ^ 32) : Chk.streamRawC t o = some (streamRaw t o) :=
   Chk.streamRawC_total t o ht
 
+/-- **`OriginalSource::stream_chunks` cannot panic** (`line += 1`, `column += token.len() as u32`, `line - 1`), every text below
+4 GiB — multi-byte included —, all four modes: the `u32` counters stay below the text length plus one (`Lemmas/TrapsOrig.lean`) -/
+theorem c17_original_total (t name : Text) (o : Opts) (ht : t.length + 1 < 2 ^ 32) :
+    Chk.streamOriginalC t name o = some (streamOriginal t name o) :=
+  Chk.streamOriginalC_total t name o ht
+
 /-- **`source()` of every tree cannot panic** when each replacement position is on a char boundary of the text it edits or beyond
 its end (`Src.ReplDom`; multi-byte text, any order, overlap, `end < start`): every `&inner[a..b]` of the splice, evaluated with
 `str::get`'s rule, succeeds. -/
@@ -82,7 +88,7 @@ theorem c17_source_total (s : Src) (h : s.ReplDom) : s.srcC = some s.src := Src.
 /-- **streaming a tree without CachedSource cannot trap in the checked parts** (raw leaves, map-driven leaves at any depth
 under ConcatSource / ReplaceSource), any store, with (`ovf = true`, a build with overflow checks: ConcatSource's `u32` bookkeeping
 checked) or without overflow checks; `streamC` runs ConcatSource with the crate's saturating column addition (fix F16),
-and `s.NoSat o` says no ConcatSource node of the tree overflows or saturates.  PARTIAL: OriginalSource's tokenizer, the combined-map lookup and
+and `s.NoSat o` says no ConcatSource node of the tree overflows or saturates.  PARTIAL: the combined-map lookup and
 the position bookkeeping of ReplaceSource are not restated in checked form (they pass through the total model; K4 lives there). -/
 theorem c17_tree_stream_total_partial (ovf : Bool) (s : Src) (o : Opts) (σ : Store) (hn : s.NoCached) (h : s.SizeOK) (hs : s.NoSat o) :
     s.streamC ovf o σ = some (s.stream o σ) := Src.streamC_eq ovf s o σ hn h hs
